@@ -1983,7 +1983,7 @@ class Identifier(str):
         """
         if is_token_type(self.token, TokenType.WORD):
             return str(self)
-        return "'" + self.replace("\\", "\\\\").replace("'", "\\'") + "'"
+        return "'" + _escape_string(str(self), "'") + "'"
 
 
 def parse_identifier(token: TokenT) -> Identifier:
